@@ -2,7 +2,8 @@
 From Verif Require Export Percolator.OnePC.
 
 Lemma ctsd_acct : forall s s' r T p st T0, stepr s (ECtsDeliver r T p st) = Ok s' ->
-  (st = StRolledBack -> forall m, kget s T p = Locked m -> m = 0) -> same_acct (getc s T0) (getc s' T0).
+  (st = StRolledBack -> forall m, kget s T p = Locked m ->
+     m = 0 \/ existsb (fun sc => (fst sc =? T) && (snd sc =? 0)) (s_wr s) = true) -> same_acct (getc s T0) (getc s' T0).
 Proof.
   intros s s' r T p st T0 H NL. destruct (N.eq_dec T T0) as [<- | Hne].
   2: { rewrite (stepr_getc_other _ _ _ T0 H); [apply same_acct_refl | cbn [txn_of]; congruence]. }
@@ -10,8 +11,8 @@ Proof.
   destruct st; chks H; try (okinv H; apply same_acct_refl).
   - destruct (step_key _ _ _ _) as [s2 |] eqn:E; try discriminate. okinv H. rewrite (step_key_getc _ _ _ _ _ T E). apply same_acct_refl.
   - destruct (step_key _ _ _ _) as [s2 |] eqn:E; try discriminate. okinv H. rewrite (step_key_getc _ _ _ _ _ T E). apply same_acct_refl.
-  - assert (Ea : match kget s T p with Locked m0 => negb (m0 =? 0) | _ => false end = false).
-    { destruct (kget s T p) eqn:Ek; auto. rewrite (NL eq_refl m eq_refl). reflexivity. }
+  - assert (Ea : match kget s T p with Locked m0 => negb (m0 =? 0) && negb (existsb (fun sc => (fst sc =? T) && (snd sc =? 0)) (s_wr s)) | _ => false end = false).
+    { destruct (kget s T p) eqn:Ek; auto. destruct (NL eq_refl m eq_refl) as [-> | ->]; [reflexivity | apply andb_false_r]. }
     rewrite Ea in H. destruct (step_key _ _ _ _) as [s2 |] eqn:E; try discriminate. okinv H.
     rewrite (step_key_getc _ _ _ _ _ T E). apply same_acct_refl.
 Qed.
@@ -43,9 +44,9 @@ Qed.
 
 Lemma oinv_rb_send : forall s s' r T ks, Linv s -> stepr s (ERbSend r T ks) = Ok s' -> onepcm s T -> oinv s T -> oinv s' T.
 Proof.
-  intros s s' r T ks HL H [Hm [H1 [H2 H3]]] O. cbn [stepr] in H. unfold step_rb_send in H. chks H. okinv H.
-  apply andb_true_iff in C0. destruct C0 as [_ C0]. unfold commit_point_pw in C0. apply fb_true in H1.
-  rewrite H1, orb_true_r in C0. cbn [negb orb] in C0.
+  intros s s' r T ks HL H Om O. pose proof (onepcm_cp _ _ Om) as Hcp. destruct Om as [Hm [H1 [H2 H3]]].
+  cbn [stepr] in H. unfold step_rb_send in H. chks H. okinv H.
+  apply andb_true_iff in C0. destruct C0 as [_ C0]. rewrite Hcp in C0. cbn [negb orb] in C0.
   destruct (err_ok_closed _ _ (HL T) O Hm C0) as [k0 [K1 K2]].
   constructor; unfold call, kc, lm, prim, F in *; intros; rd; insplit.
   - eapply (o_send _ _ O); eauto.
@@ -60,9 +61,9 @@ Qed.
 
 Lemma oinv_told : forall s s' T x, Inv s -> Linv s -> stepr s (ETold T x) = Ok s' -> onepcm s T -> oinv s T -> oinv s' T.
 Proof.
-  intros s s' T x HI HL H [Hm [H1 [H2 H3]]] O. destruct (HI T) as [G _]. pose proof (HL T) as L.
+  intros s s' T x HI HL H Om O. pose proof (onepcm_cp _ _ Om) as Hcp. destruct Om as [Hm [H1 [H2 H3]]].
+  destruct (HI T) as [G _]. pose proof (HL T) as L.
   cbn [stepr] in H. unfold step_told in H. chks H. b2p.
-  assert (Hcp : commit_point_pw (getc s T) = true) by (unfold commit_point_pw; apply fb_true in H1; rewrite H1; apply orb_true_r).
   destruct x; chks H; okinv H; constructor; unfold call, kc, lm, prim, F in *; intros; rd.
   all: try (eapply (o_send _ _ O); eauto; fail).
   all: try (eapply (o_entry _ _ O); eauto; fail).
@@ -158,12 +159,13 @@ Proof.
                           kcnt c' KNeg k = (match x with PwOk _ _ => 0 | _ => occ k ks end) + kcnt (getc s T) KNeg k) /\
                (cn c' F1pcTs = cn (getc s T) F1pcTs \/ exists m, x = PwOk m (cn c' F1pcTs))).
   { unfold c'. destruct x as [m o | kd |].
-    - repeat (rewrite ?fb_add_pwok, ?fb_add_kl; try rewrite fb_setn_ne by discriminate; try rewrite fb_incn_ne by discriminate).
-      destruct (o =? 0) eqn:Eo, (m =? 0), (fb (getc s T) FTried1) eqn:Et; rd; repeat split; try reflexivity; intros;
+    - match goal with |- context [if ?b then setn _ FMinc _ else _] => destruct b end;
+      (unfold onepc_on; repeat (rewrite ?fb_add_pwok, ?fb_add_kl; try rewrite fb_setn_ne by discriminate; try rewrite fb_incn_ne by discriminate);
+      destruct (o =? 0) eqn:Eo, (m =? 0), (fb (getc s T) FTried1) eqn:Et, (fb (getc s T) FFb1) eqn:Ef1; cbn [andb negb]; rd; repeat split; try reflexivity; intros;
         try discriminate; try (inversion H0; subst; apply N.eqb_neq in Eo; auto; fail);
         rewrite ?kcnt_setn, ?kcnt_add_pwok; repeat rewrite kcnt_add_kl; rewrite ?kcnt_incn; cbn; try lia; try reflexivity;
-        try (left; reflexivity); try (right; eexists; reflexivity).
-      all: try (apply fb_false in Et; unfold F in H1'; try congruence).
+        try (left; reflexivity); try (right; eexists; reflexivity);
+        try (apply fb_false in Et; unfold F in H1'; try congruence)).
     - rd. repeat split; try reflexivity; intros; try discriminate;
         rewrite ?kcnt_setn; repeat rewrite kcnt_add_kl; rewrite ?kcnt_incn; cbn; try lia; left; reflexivity.
     - rd. repeat split; try reflexivity; intros; try discriminate;
@@ -201,6 +203,11 @@ Proof.
   { intros y Hne Hy. destruct Ls as [Ls | Ls]; rewrite Ls in Hy; auto. destruct Hy as [Hy | Hy]; auto. congruence. }
   cbn [stepr] in H. unfold step_pw_deliver in H. chks H.
   apply sent_by_In in C. destruct C as [e0 [Ce1 Ce2]]. destruct e0; try discriminate. beq. subst. clear C0 C2 C3.
+  match type of H with context [sent_by s ?pp] => set (req1 := sent_by s pp) in * end.
+  assert (Hreq : forall r0 p0 a0 m0 f0 secs0, In (EPwSend r0 T p0 ks a0 true m0 f0 secs0) (s_sent s) -> r0 = r -> req1 = true).
+  { intros r0 p0 a0 m0 f0 secs0 Hin ->. unfold req1, sent_by. apply existsb_exists. eexists. split; [exact Hin |].
+    cbn beta iota. rewrite !N.eqb_refl, leqb_refl. reflexivity. }
+  clearbody req1.
   match type of H with context [setc (add_dlv s ?ee) T ?cc] => set (c' := cc) in *; set (e' := ee) in * end.
   change (setc (add_dlv s e') T c') with (add_dlv (setc s T c') e') in H.
   set (b := setc s T c') in *.
@@ -222,7 +229,7 @@ Proof.
   assert (RC : cn c' FHasm = cn (getc s T) FHasm /\ cn c' FPrim = cn (getc s T) FPrim /\ cn c' FTold = cn (getc s T) FTold /\
                cn c' FTried1 = cn (getc s T) FTried1 /\ cn c' FFb1 = cn (getc s T) FFb1 /\ cn c' F1pcTs = cn (getc s T) F1pcTs /\
                c_lm c' = c_lm (getc s T) /\ c_all c' = c_all (getc s T) /\
-               (cn c' FStFb = 0 -> cn (getc s T) FStFb = 0 /\ (fb (getc s T) FTried1 = true -> forall m o, x = PwOk m o -> o <> 0)) /\
+               (cn c' FStFb = 0 -> cn (getc s T) FStFb = 0 /\ (fb (getc s T) FTried1 = true -> forall m o, x = PwOk m o -> o = 0 -> req1 = false)) /\
                forall k, kcnt c' KSent k = kcnt (getc s T) KSent k /\ kcnt c' KNeg k = kcnt (getc s T) KNeg k /\
                          kcnt c' KDlv k = occ k ks + kcnt (getc s T) KDlv k /\
                          kcnt c' KNegD k = (match x with PwOk _ _ => 0 | _ => occ k ks end) + kcnt (getc s T) KNegD k).
@@ -230,16 +237,19 @@ Proof.
     - unfold commit_point_pw. repeat (rewrite ?fb_add_kl; try rewrite fb_setn_ne by discriminate).
       assert (Efb : forall g cc lst mm, fb (add_lam cc lst mm) g = fb cc g) by reflexivity.
       destruct (o0 =? 0) eqn:Eo; rewrite ?Efb, ?fb_add_kl;
-        destruct (fb (getc s T) FTriedA), (fb (getc s T) FTried1) eqn:Et, (m0 =? 0); cbn [orb andb]; rd;
+        destruct (fb (getc s T) FTriedA), (fb (getc s T) FTried1) eqn:Et, (m0 =? 0), req1; cbn [orb andb]; rd;
         repeat split; try reflexivity; intros; try discriminate;
-        try (match goal with Hx : PwOk _ _ = PwOk _ _ |- _ => inversion Hx; subst end; apply N.eqb_neq in Eo; auto; fail);
+        try (match goal with Hx : PwOk _ _ = PwOk _ _ |- _ => inversion Hx; subst end; apply N.eqb_neq in Eo; congruence);
         rewrite ?kcnt_setn, ?kcnt_add_lam; repeat rewrite kcnt_add_kl; cbn; try lia; auto.
     - rd. repeat split; try reflexivity; intros; try discriminate; repeat rewrite kcnt_add_kl; cbn; lia.
     - rd. repeat split; try reflexivity; intros; try discriminate; repeat rewrite kcnt_add_kl; cbn; lia. }
   destruct RC as [R1 [R2 [R3 [R4 [R5 [R6 [R7 [R8 [R9 R10]]]]]]]]]. clearbody c'.
-  unfold hasm, F in *. rewrite Gc in *. rewrite ?R1, ?R4, ?R5 in *. destruct (R9 H3') as [H3 Hox].
+  unfold hasm, F in *. rewrite Gc in *. rewrite ?R1, ?R4, ?R5 in *. destruct (R9 H3') as [H3 Hox0].
   assert (Ht1 : fb (getc s T) FTried1 = true) by (apply fb_true; auto).
   assert (HO : oinv s T) by (apply OI; repeat split; auto).
+  assert (Hox : fb (getc s T) FTried1 = true -> forall m o, x = PwOk m o -> o <> 0).
+  { intros _ m1 o1 Hx1 Ho1. pose proof (Hox0 Ht1 _ _ Hx1 Ho1) as Hq.
+    destruct (o_send _ _ HO _ _ _ _ _ _ _ _ Ce1) as [Hone _]. rewrite Hone in Ce1. rewrite (Hreq _ _ _ _ _ _ Ce1 eq_refl) in Hq. discriminate. }
   assert (Hcp : commit_point_pw (getc s T) = true) by (unfold commit_point_pw; rewrite Ht1; apply orb_true_r).
   rewrite Hcp in C1. cbn [negb orb] in C1.
   assert (Hcnt : forall k, In k ks -> kcnt (getc s T) KDlv k + occ k ks <= kcnt (getc s T) KSent k).
